@@ -104,7 +104,7 @@ class RouteIR(object):
         self.ep_levels, self.rn_levels = parse_chain(self.ep_src), parse_chain(self.rn_src)
         self.ep_funcs = list(self.ep_chain.__globals__['funcs'])
         self.rn_funcs = list(self.rn_chain.__globals__['funcs'])
-        self.base_response = g.get('BaseResponse')
+        self.pr_globals = g
 
 
 # ---------------------------------------------------------------------------------------------- z3 domain
@@ -112,12 +112,19 @@ class Dom(object):
     def __init__(self):
         self.V = z3.DeclareSort('V')
         O = z3.Datatype('Outcome')
-        O.declare('Ret', ('val', self.V), ('isresp', z3.BoolSort()))
+        O.declare('Ret', ('val', self.V), ('isresp', z3.BoolSort()), ('isfull', z3.BoolSort()))
         O.declare('Exc', ('exc', self.V))
         self.O = O.create()
         self.consts = {}
         self.events = {}
         self.ISeq = z3.SeqSort(z3.IntSort())
+
+    def ret(self, v, isresp, isfull=None):
+        isresp = z3.BoolVal(isresp) if isinstance(isresp, bool) else isresp
+        if isfull is None:
+            isfull = isresp
+        isfull = z3.BoolVal(isfull) if isinstance(isfull, bool) else isfull
+        return self.O.Ret(v, isresp, isfull)
 
     def const(self, name):
         if name not in self.consts:
@@ -177,10 +184,10 @@ class FuncInfo(object):
 
     def beh_domain(self):
         if self.kind == 'mw':
-            return z3.And(self.beh >= 0, self.beh <= 4)
+            return z3.And(self.beh >= 0, self.beh <= 5)
         if self.kind == 'ep':
-            return z3.Or(self.beh == 0, self.beh == 1, self.beh == 3)
-        return z3.Or(self.beh == 0, self.beh == 1)
+            return z3.Or(self.beh == 0, self.beh == 1, self.beh == 3, self.beh == 5)
+        return z3.Or(self.beh == 0, self.beh == 1, self.beh == 5)
 
     def call_ok(self, names):
         names = set(names)
@@ -208,13 +215,18 @@ class Evaluator(object):
                 raise Unsupported('funcs index out of range')
             # kwargs of the call: name -> value in the lexical environment
             kw = {}
+            unbound = []
             for k, v in lv['kwargs']:
                 if v == 'next' and j + 1 < len(levels):
                     kw[k] = 'NEXT'
                 elif v in env:
                     kw[k] = env[v]
                 else:
-                    raise Unsupported('generated code reads unbound name %r' % v)
+                    unbound.append(v)
+            if unbound:
+                # the generated code reads a name that is not in scope: a NameError at request time
+                self.calls.append(('<generated>', {}, False))
+                return d.O.Exc(d.const('NAMEERROR')), d.ev('typeerror:unbound-%s' % unbound[0])
             if j == len(levels) - 1:
                 return innermost(f, kw)
             fi = self.finfo_of(f)
@@ -226,7 +238,9 @@ class Evaluator(object):
             nxt = levels[j + 1]
             env2 = dict(env)
             passed = dict((n, d.const('PROV:%s:%s' % (fi.name, n))) for n in fi.provides)
-            inner_ok = set(nxt['params']) == set(passed)     # next() must be called with exactly its parameters
+            # next() must accept exactly what the middleware provides, positionally in the DECLARED order
+            # (a middleware may call next(v1, v2) positionally)
+            inner_ok = list(nxt['params']) == list(fi.provides)
             for p in nxt['params']:
                 if p in passed:
                     env2[p] = passed[p]
@@ -240,11 +254,12 @@ class Evaluator(object):
     def apply_behaviour(self, fi, inner_out, inner_tr):
         d, b = self.d, fi.beh
         E = d.O.Exc(d.const('EXC:' + fi.name))
-        Rr = d.O.Ret(d.const('RESP:' + fi.name), z3.BoolVal(True))
+        Rr = d.ret(d.const('RESP:' + fi.name), True)
+        Rh = d.ret(d.const('HTTPEXC:' + fi.name), True, False)     # a returned HTTPException: a BaseResponse, not a full Response
         inner_exc = d.O.is_Exc(inner_out)
-        out = z3.If(b == 1, E, z3.If(b == 3, Rr,
-                    z3.If(inner_exc, z3.If(b == 4, Rr, inner_out), z3.If(b == 2, E, inner_out))))
-        calls_next = z3.And(b != 1, b != 3)
+        out = z3.If(b == 1, E, z3.If(b == 3, Rr, z3.If(b == 5, Rh,
+                    z3.If(inner_exc, z3.If(b == 4, Rr, inner_out), z3.If(b == 2, E, inner_out)))))
+        calls_next = z3.And(b != 1, b != 3, b != 5)
         raised = d.O.is_Exc(out)
         tr = d.cat(d.ev('enter:' + fi.name), z3.If(calls_next, inner_tr, d.empty()),
                    z3.If(raised, d.ev('raise:' + fi.name), d.ev('leave:' + fi.name)))
@@ -260,10 +275,10 @@ class Evaluator(object):
         b = fi.beh
         E = d.O.Exc(d.const('EXC:' + fi.name))
         if fi.kind == 'ep':
-            out = z3.If(b == 1, E, z3.If(b == 3, d.O.Ret(d.const('RESP:ep'), z3.BoolVal(True)),
-                                         d.O.Ret(d.const('CTX'), z3.BoolVal(False))))
+            out = z3.If(b == 1, E, z3.If(b == 3, d.ret(d.const('RESP:ep'), True),
+                                         z3.If(b == 5, d.ret(d.const('HTTPEXC:ep'), True, False), d.ret(d.const('CTX'), False))))
         else:
-            out = z3.If(b == 1, E, d.O.Ret(d.const('RESP:rn'), z3.BoolVal(True)))
+            out = z3.If(b == 1, E, z3.If(b == 5, d.ret(d.const('HTTPEXC:rn'), True, False), d.ret(d.const('RESP:rn'), True)))
         tr = d.cat(d.ev('enter:' + fi.name), z3.If(d.O.is_Exc(out), d.ev('raise:' + fi.name), d.ev('leave:' + fi.name)))
         return out, tr
 
@@ -274,7 +289,7 @@ class Evaluator(object):
         result = None            # list of (cond, outcome)
         results = []
         trace = d.empty()
-        venv = dict((k, (v, z3.BoolVal(False))) for k, v in env.items())   # name -> (V term, isresp)
+        venv = dict((k, (v, z3.BoolVal(False), z3.BoolVal(False))) for k, v in env.items())   # name -> (V term, isresp, isfull)
 
         def call(fname, kwnames):
             kw = {}
@@ -310,23 +325,30 @@ class Evaluator(object):
                         trace = d.cat(trace, z3.If(alive, tr, d.empty()))
                         results.append((z3.And(alive, d.O.is_Exc(out)), out))
                         alive = z3.And(alive, d.O.is_Ret(out))
-                        new = (d.O.val(out), d.O.isresp(out))
+                        new = (d.O.val(out), d.O.isresp(out), d.O.isfull(out))
                         if val.func.id == 'endpoint':
                             self.ctx_term = new[0]
                     else:
                         raise Unsupported('process_request assignment value')
                     old = venv.get(tgt)
-                    venv[tgt] = new if old is None else (z3.If(alive, new[0], old[0]), z3.If(alive, new[1], old[1]))
+                    venv[tgt] = new if old is None else tuple(z3.If(alive, new[i], old[i]) for i in range(3))
                 elif isinstance(st, ast.If):
                     t = st.test
                     neg = False
                     if isinstance(t, ast.UnaryOp) and isinstance(t.op, ast.Not):
                         neg, t = True, t.operand
                     if not (isinstance(t, ast.Call) and isinstance(t.func, ast.Name) and t.func.id == 'isinstance'
-                            and len(t.args) == 2 and isinstance(t.args[0], ast.Name) and isinstance(t.args[1], ast.Name)
-                            and t.args[1].id == 'BaseResponse'):
+                            and len(t.args) == 2 and isinstance(t.args[0], ast.Name) and isinstance(t.args[1], ast.Name)):
                         raise Unsupported('process_request condition')
-                    c = venv[t.args[0].id][1]
+                    # which values does the tested class cover?  Looked up in the generated function's own globals.
+                    cls = ir.pr_globals.get(t.args[1].id)
+                    from werkzeug.wrappers import Response as _FullResp
+                    from clastic.errors import HTTPException as _HE
+                    if not isinstance(cls, type):
+                        raise Unsupported('isinstance against %r' % (cls,))
+                    x = venv[t.args[0].id]
+                    covers_full, covers_http = issubclass(_FullResp, cls), issubclass(_HE, cls)
+                    c = z3.Or(z3.And(x[2], z3.BoolVal(covers_full)), z3.And(x[1], z3.Not(x[2]), z3.BoolVal(covers_http)))
                     if neg:
                         c = z3.Not(c)
                     before = dict(venv)
@@ -341,20 +363,20 @@ class Evaluator(object):
                         if x1 is None or x2 is None:
                             venv[k] = x1 or x2
                         else:
-                            venv[k] = (z3.If(c, x1[0], x2[0]), z3.If(c, x1[1], x2[1]))
+                            venv[k] = tuple(z3.If(c, x1[i], x2[i]) for i in range(3))
                     alive = z3.Or(a1, a2)
                     trace = tr2
                 elif isinstance(st, ast.Return):
                     if not isinstance(st.value, ast.Name) or st.value.id not in venv:
                         raise Unsupported('process_request return')
                     v = venv[st.value.id]
-                    results.append((alive, d.O.Ret(v[0], v[1])))
+                    results.append((alive, d.O.Ret(v[0], v[1], v[2])))
                     alive = z3.BoolVal(False)
                 else:
                     raise Unsupported('process_request statement %s' % type(st).__name__)
             return alive, trace
         alive, trace = run(ir.pr['body'], alive, trace)
-        out = d.O.Ret(d.const('NONE'), z3.BoolVal(False))      # falling off the end returns None
+        out = d.ret(d.const('NONE'), False)      # falling off the end returns None
         for c, o in reversed(results):
             out = z3.If(c, o, out)
         return out, trace
@@ -388,10 +410,11 @@ def onion(dom, layers, core):
     inner_out, inner_tr = onion(dom, layers[1:], core)
     b = f.beh
     E = d.O.Exc(d.const('EXC:' + f.name))
-    Rr = d.O.Ret(d.const('RESP:' + f.name), z3.BoolVal(True))
-    stops = z3.Or(b == 1, b == 3)
-    out = z3.If(b == 1, E, z3.If(b == 3, Rr, z3.If(d.O.is_Exc(inner_out), z3.If(b == 4, Rr, inner_out),
-                                                     z3.If(b == 2, E, inner_out))))
+    Rr = d.ret(d.const('RESP:' + f.name), True)
+    Rh = d.ret(d.const('HTTPEXC:' + f.name), True, False)
+    stops = z3.Or(b == 1, b == 3, b == 5)
+    out = z3.If(b == 1, E, z3.If(b == 3, Rr, z3.If(b == 5, Rh, z3.If(d.O.is_Exc(inner_out), z3.If(b == 4, Rr, inner_out),
+                                                                     z3.If(b == 2, E, inner_out)))))
     tr = d.cat(d.ev('enter:' + f.name), z3.If(stops, d.empty(), inner_tr),
                z3.If(d.O.is_Exc(out), d.ev('raise:' + f.name), d.ev('leave:' + f.name)))
     return out, tr
@@ -403,12 +426,13 @@ def spec_route(dom, req_layers, ep_layers, ep, rn_layers, rn):
     def ep_core():
         b = ep.beh
         out = z3.If(b == 1, d.O.Exc(d.const('EXC:' + ep.name)),
-                    z3.If(b == 3, d.O.Ret(d.const('RESP:ep'), z3.BoolVal(True)), d.O.Ret(d.const('CTX'), z3.BoolVal(False))))
+                    z3.If(b == 3, d.ret(d.const('RESP:ep'), True),
+                          z3.If(b == 5, d.ret(d.const('HTTPEXC:ep'), True, False), d.ret(d.const('CTX'), False))))
         return out, d.cat(d.ev('enter:' + ep.name), z3.If(d.O.is_Exc(out), d.ev('raise:' + ep.name), d.ev('leave:' + ep.name)))
 
     def rn_core():
         b = rn.beh
-        out = z3.If(b == 1, d.O.Exc(d.const('EXC:' + rn.name)), d.O.Ret(d.const('RESP:rn'), z3.BoolVal(True)))
+        out = z3.If(b == 1, d.O.Exc(d.const('EXC:' + rn.name)), z3.If(b == 5, d.ret(d.const('HTTPEXC:rn'), True, False), d.ret(d.const('RESP:rn'), True)))
         return out, d.cat(d.ev('enter:' + rn.name), z3.If(d.O.is_Exc(out), d.ev('raise:' + rn.name), d.ev('leave:' + rn.name)))
 
     def core():
